@@ -235,6 +235,21 @@ Definition f32_ok (b : N) : bool := (b <? 2 ^ 32)%N.
 Definition byte_val_ok (z : Z) : bool := (0 <=? z) && (z <=? 255).
 Definition ANGLE_360 : N := 1135869952%N.     (* 0x43B40000 = 360.0f; non-negative floats are ordered like their patterns *)
 
+(** The values the wire type represents exactly ([fdiv]: binary64 division, for tick-exact times). *)
+Definition sval_rep (fdiv : Q -> Q -> Q) (cfg : scalarcfg) (t : vtype) (v : sval) : Prop :=
+  match t, v with
+  | TInt, SvInt z => int32_ok z = true
+  | TFloat, SvFloat b => f32_ok b = true
+  | TBool, SvBool _ => True
+  | TTime, SvTime q => exists k, int32_ok k = true /\ q = fdiv (inject_Z k) (inject_Z (sc_time_div cfg))
+  | TColor, SvColor r g b a => byte_val_ok r && byte_val_ok g && byte_val_ok b && byte_val_ok a = true
+  | TVec2, SvVec l | TVec3, SvVec l | TVec4, SvVec l | TQuat, SvVec l =>
+      List.length l = arity t /\ forallb f32_ok l = true
+  | TAngle, SvVec l => List.length l = arity t /\ forallb (fun b => (b <? ANGLE_360)%N) l = true
+  | TMatrix, SvMat m => List.length m = 9%nat /\ forallb f32_ok m = true
+  | _, _ => False
+  end.
+
 (** The pinned configuration (hand copy, for examples and refutations). *)
 Definition pinned_scalar : scalarcfg := {|
   sc_formats := [(TInt, "<i"); (TFloat, "<f"); (TBool, "<?"); (TColor, "<4B"); (TAngle, "<3f"); (TQuat, "<4f");
